@@ -45,8 +45,27 @@ def full_cfg(cfg: dict) -> dict:
 _G: dict = {}
 
 
-def _init_worker(configs, variants, sd):
-    _G["configs"], _G["variants"], _G["seed"] = configs, variants, sd
+def _init_worker(configs, variants, sd, level="retry"):
+    _G["configs"], _G["variants"], _G["seed"], _G["level"] = configs, variants, sd, level
+
+
+def _run(level, cfg, events, var, perm):
+    if level == "policy":
+        from . import policyenv
+        return policyenv.run_policy_scenario(cfg, events, entry=var["entry"], perm=perm,
+                                             place=var.get("place", "call"),
+                                             async_callbacks=var.get("async_callbacks", False))
+    return retryenv.run_scenario(cfg, events, entry=var["entry"], perm=perm,
+                                 place=var.get("place", "call"),
+                                 async_callbacks=var.get("async_callbacks", False),
+                                 wall=var.get("wall", "jump"))
+
+
+def _full(level, cfg):
+    if level == "policy":
+        from . import policyenv
+        return policyenv.full_pcfg(cfg)
+    return full_cfg(cfg)
 
 
 def _strip(evs):
@@ -57,22 +76,19 @@ def _replay_chunk(chunk):
     """chunk: list of (index, cid, events).  Returns (n_runs, mismatches)."""
     out = []
     n = 0
-    configs, variants, sd = _G["configs"], _G["variants"], _G["seed"]
+    configs, variants, sd, level = _G["configs"], _G["variants"], _G["seed"], _G.get("level", "retry")
     for idx, cid, events in chunk:
         cfg = configs[cid - 1]
         wallobs: dict = {}
         for vi, var in enumerate(variants):
             perm = retryenv.class_perm(sd * 1000003 + idx * 31 + vi) if var.get("permute") else None
             try:
-                obs = retryenv.run_scenario(cfg, events, entry=var["entry"], perm=perm,
-                                            place=var.get("place", "call"),
-                                            async_callbacks=var.get("async_callbacks", False),
-                                            wall=var.get("wall", "jump"))
+                obs = _run(level, cfg, events, var, perm)
             except Exception as exc:  # noqa: BLE001 - harness failure inside a scenario
                 obs = [{"e": "harness-error", "what": f"{type(exc).__name__}: {exc}"}]
             n += 1
             if obs != events:
-                out.append({"cfg": full_cfg(cfg), "ev": obs, "predicted": events,
+                out.append({"cfg": _full(level, cfg), "ev": obs, "predicted": events,
                             "variant": var, "beh": idx})
             if "wallgroup" in var:
                 first = wallobs.setdefault(var["wallgroup"], (var, obs))
@@ -83,20 +99,21 @@ def _replay_chunk(chunk):
     return n, out
 
 
-def replay_behaviours(configs, behs, variants, *, workers: int = 14, max_mismatch: int = 4000):
+def replay_behaviours(configs, behs, variants, *, workers: int = 14, max_mismatch: int = 4000,
+                      level: str = "retry"):
     items = [(i, b["c"], b["h"]) for i, b in enumerate(behs)]
     size = max(50, len(items) // (workers * 8) + 1)
     chunks = [items[i:i + size] for i in range(0, len(items), size)]
     total, mism = 0, []
     if len(items) < 400:
-        _init_worker(configs, variants, seed())
+        _init_worker(configs, variants, seed(), level)
         for ch in chunks:
             n, m = _replay_chunk(ch)
             total += n
             mism += m
         return total, mism[:max_mismatch]
     with ProcessPoolExecutor(max_workers=workers, initializer=_init_worker,
-                             initargs=(configs, variants, seed())) as ex:
+                             initargs=(configs, variants, seed(), level)) as ex:
         for n, m in ex.map(_replay_chunk, chunks):
             total += n
             if len(mism) < max_mismatch:
@@ -225,8 +242,8 @@ for _p in ("C01", "C02", "C03", "C04", "C05", "C11", "C13", "C14", "C16"):
             n_random={"quick": 1500, "thorough": 40000})
 
 
-def export_behaviours(cfgfile: str, tag: str):
-    res = run_tlc("RetryMC.tla", cfgfile, tag=tag, timeout=3000)
+def export_behaviours(cfgfile: str, tag: str, module: str = "RetryMC.tla"):
+    res = run_tlc(module, cfgfile, tag=tag, timeout=3000)
     if not res.ok:
         raise Machinery(f"spec-level counterexample while exporting ({cfgfile}): {res.violated}\n"
                         f"{res.output[-3000:]}")
@@ -291,17 +308,16 @@ def check(prop: str, tier: str) -> Report:
     v2 = tlc_validate("RetryTrace", rand, f"{prop}-rand")
     nonconf = judge(rep, prop, mism, v1, "S->C replay of a TLC behaviour")
     nonconf_r = judge(rep, prop, rand, v2, "C->S random scenario")
-    # canary: corrupt one recorded field of a real, conformant trace
-    good = next((t for t, v in zip(rand, v2) if not v["viol"] and not v["conf"]
-                 and any(e["e"] == "invoke" for e in t["ev"])), None)
-    if good is None:
-        raise Machinery("no conformant random trace available for the canary")
-    bad = json.loads(json.dumps({"cfg": good["cfg"], "ev": good["ev"]}))
+    # canary (independent of the code under test): a behaviour of M must be accepted as it is
+    # and rejected with a phantom extra invocation
+    gb = next(b for b in behs if any(e["e"] == "invoke" for e in b["h"]))
+    good = {"cfg": full_cfg(configs[gb["c"] - 1]), "ev": gb["h"]}
+    bad = json.loads(json.dumps(good))
     i = max(j for j, e in enumerate(bad["ev"]) if e["e"] == "invoke")
-    bad["ev"].insert(i, dict(bad["ev"][i]))          # a phantom extra invocation
-    cv = tlc_validate("RetryTrace", [bad], f"{prop}-canary")[0]
-    if not cv["conf"] or not cv["viol"]:
-        raise Machinery("canary: corrupted trace accepted by the trace specification")
+    bad["ev"].insert(i, dict(bad["ev"][i]))
+    cv = tlc_validate("RetryTrace", [good, bad], f"{prop}-canary")
+    if cv[0]["viol"] or cv[0]["conf"] or not cv[1]["conf"] or not cv[1]["viol"]:
+        raise Machinery(f"canary failed: {cv}")
     rep.coverage.update({
         "states": mc.distinct, "transitions": mc.generated, "depth": mc.depth, "mc_cfg": mc_cfg,
         "export_cfg": ex_cfg, "behaviours_exported": len(behs), "export_states": ex.distinct,
